@@ -25,13 +25,13 @@ RULE = ('case kinds: (faulty_server) a scripted peer plays the server side of th
 ASSUMPTIONS = ['15 s separates "finite" from "hung": no timeout inside the handshake code exceeds 5 s', 'the scripted peer closes its sockets at the latest 1.5 s after going silent']
 SHRINK = 'none'
 TIME_BUDGET = {'quick': 170, 'thorough': 1700}
-REQUIRED = {'quick': {'kind:faulty_server': 100, 'kind:child_dies': 40, 'kind:unknown_ctx': 4, 'kind:unsendable_work': 20, 'kind:unloadable_work': 15, 'step:addr_msg': 50, 'step:info_msg': 12, 'server_killed_mid_request': 25},
+REQUIRED = {'quick': {'kind:faulty_server': 100, 'kind:child_dies': 25, 'kind:unknown_ctx': 4, 'kind:unsendable_work': 20, 'kind:unloadable_work': 15, 'kind:main_script_misbehaves': 15, 'step:addr_msg': 50, 'step:info_msg': 12, 'server_killed_mid_request': 25},
             'thorough': {'kind:faulty_server': 350, 'kind:child_dies': 130}}
 LIMIT = 15.0
 
 
 def examples(tier):
-    return 330 if tier == 'quick' else 3000
+    return 450 if tier == 'quick' else 3000
 
 
 def shards(tier):
@@ -55,7 +55,10 @@ def strategy(tier):
     # start-up fails on the server side: the worker object arrives intact but cannot be rebuilt there (with and without a context)
     ul = st.fixed_dictionaries({'kind': st.just('unloadable_work'), 'worker': st.sampled_from(['remote', 'p_remote']), 'in_context': st.booleans(),
                                 'what': st.sampled_from(['init_state', 'userid', 'args'])})
-    return st.one_of(fs, fs, fs, cd, cd, uc, ur, sd, sd, us, ul)
+    # the script the parent was started from (re-run in the backend child as __mp_main__) misbehaves there: leaves the interpreter, raises, interrupts
+    ms = st.fixed_dictionaries({'kind': st.just('main_script_misbehaves'), 'worker': st.sampled_from(['remote', 'p_remote']),
+                                'how': st.sampled_from(['sys_exit', 'raise_exception', 'keyboard_interrupt', 'syntax_error', 'missing_file'])})
+    return st.one_of(fs, fs, fs, cd, cd, uc, ur, sd, sd, us, ul, ms)
 
 
 def exhaustive(tier, shard, nshards):
@@ -310,6 +313,23 @@ def run_case(case, ctx):
 
             def ctor():
                 return cls(None if case['in_context'] else vtargets.echo2, args=a, name=IC.fresh_name(ctx, 'c20'), **kw)
+        elif kind == 'main_script_misbehaves':
+            srv = IC.server(ctx)
+            before = set(census(ctx.tag))
+            how = case['how']
+            site = f'{kind}:{worker}:{how}'
+            out.label('main_script:' + how)
+            mp_ = os.path.join(ctx.scratch, IC.fresh_name(ctx, 'c20main') + '.py')
+            body = {'sys_exit': "import sys\nif __name__ != '__main__':\n    sys.exit(2)\n",
+                    'raise_exception': "if __name__ != '__main__':\n    raise RuntimeError('not meant to be imported')\n",
+                    'keyboard_interrupt': "if __name__ != '__main__':\n    raise KeyboardInterrupt()\n",
+                    'syntax_error': "def broken(:\n    pass\n", 'missing_file': None}[how]
+            if body is not None:
+                with open(mp_, 'w') as f:
+                    f.write(body)
+
+            def ctor():
+                return cls(vtargets.sq, args=None if persistent else [3], host=srv.addr, name=IC.fresh_name(ctx, 'c20'), main_path=mp_)
         elif kind == 'unreachable':
             s = socket.socket(); s.bind(('127.0.0.1', 0)); dead = s.getsockname(); s.close()
 
@@ -371,7 +391,7 @@ def run_case(case, ctx):
         if fs is not None:
             res['cut'] = fs.effective_cut
             res['msg_len'] = fs.msg_len
-        out.nontrivial = kind in ('child_dies', 'unknown_ctx', 'server_dies', 'unsendable_work', 'unloadable_work') or (kind == 'faulty_server' and (case['step'] not in ('addr_msg', 'info_msg') or (fs.effective_cut or 0) > 0))
+        out.nontrivial = kind in ('child_dies', 'unknown_ctx', 'server_dies', 'unsendable_work', 'unloadable_work', 'main_script_misbehaves') or (kind == 'faulty_server' and (case['step'] not in ('addr_msg', 'info_msg') or (fs.effective_cut or 0) > 0))
         out.key = dict(case, eff=res.get('cut'), n=res.get('n'))
         if res['ctor'] == 'blocked':
             out.viol('constructor_hangs', site, f'constructor did not return or raise within {LIMIT}s ({res})')
@@ -418,7 +438,7 @@ def run_case(case, ctx):
             except Exception:
                 pass
             kill_pids([p for p in census(ctx.tag) if p not in before])
-        if kind in ('unknown_ctx', 'child_dies', 'unsendable_work', 'unloadable_work') and worker.endswith('remote') and not IC.server_healthy(ctx):
+        if kind in ('unknown_ctx', 'child_dies', 'unsendable_work', 'unloadable_work', 'main_script_misbehaves') and worker.endswith('remote') and not IC.server_healthy(ctx):
             # a wedged or dead server is C11's business; here it only needs replacing
             out.label('server_replaced')
             IC.stop_server(ctx)
